@@ -200,7 +200,7 @@ def measure_cap(build):
 def run(chk):
     quick = chk.tier == "quick"
     ok_proofs = chk.proofs()
-    factor = 1 if ok_proofs else 6
+    factor = 1 if ok_proofs else 3
     b1 = build_or_report(chk, ())
     if isinstance(b1, int):
         return b1
